@@ -5,6 +5,43 @@ From Coq Require Import List Arith Bool Lia.
 From LV Require Import Cfg.Grammar Cfg.Analysis Cfg.Analysis_proofs Earley.Spec Earley.Alg.
 Import ListNotations.
 
+Lemma syms_eqb_spec a : forall b, syms_eqb a b = true <-> a = b.
+Proof.
+  induction a as [|x a IH]; intros [|y b]; simpl; split; try discriminate; auto.
+  - rewrite andb_true_iff. intros [H1 H2]. apply IH in H2. destruct (symbol_eqb_spec x y); try discriminate.
+    subst; auto.
+  - intros H. inversion H; subst. rewrite andb_true_iff. split; [|apply IH; auto].
+    destruct (symbol_eqb_spec y y); auto.
+Qed.
+
+Lemma rule_eqb_spec r1 r2 : rule_eqb r1 r2 = true <-> r1 = r2.
+Proof.
+  unfold rule_eqb. rewrite andb_true_iff, Nat.eqb_eq, syms_eqb_spec.
+  destruct r1, r2; simpl. split; [intros [-> ->]; auto|intros H; inversion H; auto].
+Qed.
+
+Lemma item_eqb_spec x y : item_eqb x y = true <-> x = y.
+Proof.
+  unfold item_eqb. rewrite !andb_true_iff, !Nat.eqb_eq, rule_eqb_spec.
+  destruct x, y; simpl. split; [intros [[-> ->] ->]; auto|intros H; inversion H; auto].
+Qed.
+
+Lemma memP x s : reflect (In x s) (mem x s).
+Proof.
+  unfold mem. destruct (existsb (item_eqb x) s) eqn:E; constructor.
+  - apply existsb_exists in E. destruct E as (y & Hy & He). apply item_eqb_spec in He. subst; auto.
+  - intros H. assert (existsb (item_eqb x) s = true); [|congruence].
+    apply existsb_exists. exists x. split; auto. apply item_eqb_spec; auto.
+Qed.
+
+Lemma nat_memP a s : reflect (In a s) (nat_mem a s).
+Proof.
+  unfold nat_mem. destruct (existsb (Nat.eqb a) s) eqn:E; constructor.
+  - apply existsb_exists in E. destruct E as (y & Hy & He). apply Nat.eqb_eq in He. subst; auto.
+  - intros H. assert (existsb (Nat.eqb a) s = true); [|congruence].
+    apply existsb_exists. exists a. split; auto. apply Nat.eqb_refl.
+Qed.
+
 Definition is_term_item (x : item) : bool :=
   match expect x with Some (T _) => true | _ => false end.
 
@@ -30,20 +67,20 @@ Proof. constructor; auto using incl_refl; try (intros ? []). Qed.
 
 Lemma set_add_In x y s : In y (set_add x s) <-> In y s \/ y = x.
 Proof.
-  unfold set_add. destruct (in_dec item_eq_dec x s).
+  unfold set_add. destruct (memP x s).
   - split; auto. intros [?| ->]; auto.
   - rewrite in_app_iff. simpl. split; intros [?|?]; auto. destruct H; auto; tauto.
 Qed.
 
 Lemma nat_add_In a b s : In b (nat_add a s) <-> In b s \/ b = a.
 Proof.
-  unfold nat_add. destruct (in_dec Nat.eq_dec a s).
+  unfold nat_add. destruct (nat_memP a s).
   - split; auto. intros [?| ->]; auto.
   - rewrite in_app_iff. simpl. split; intros [?|?]; auto. destruct H; auto; tauto.
 Qed.
 
 Lemma set_add_nodup x s : NoDup s -> NoDup (set_add x s).
-Proof. unfold set_add. destruct (in_dec item_eq_dec x s); auto. intros. apply NoDup_snoc; auto. Qed.
+Proof. unfold set_add. destruct (memP x s); auto. intros. apply NoDup_snoc; auto. Qed.
 
 Lemma ext_one st x : ext [x] st (add_new st x).
 Proof.
@@ -59,13 +96,13 @@ Proof.
       right; split; [left; auto|auto].
   - assert (E : match expect x with
                 | Some (T _) => mkPC (pc_col st) (pc_work st) (set_add x (pc_scan st)) (pc_held st)
-                | _ => if in_dec item_eq_dec x (pc_col st) then st
+                | _ => if mem x (pc_col st) then st
                        else mkPC (pc_col st ++ [x]) (x :: pc_work st) (pc_scan st) (pc_held st)
-                end = if in_dec item_eq_dec x (pc_col st) then st
+                end = if mem x (pc_col st) then st
                       else mkPC (pc_col st ++ [x]) (x :: pc_work st) (pc_scan st) (pc_held st)).
     { unfold is_term_item in Ht. destruct (expect x) as [[?|?]|]; auto; discriminate. }
     rewrite E. clear E.
-    destruct (in_dec item_eq_dec x (pc_col st)) as [Hin|Hnin].
+    destruct (memP x (pc_col st)) as [Hin|Hnin].
     + constructor; auto using incl_refl.
       * intros y [<- |[]] H. congruence.
       * intros y [<- |[]] _. auto.
@@ -214,7 +251,7 @@ Section Proofs.
       | None => map advance (filter (expects_nt (lhs (irule x)))
                                (if Nat.eqb (orig x) i then pc_col st else nth (orig x) cols []))
       | Some (NT a) => map (fun r => mkItem r 0 i) (predictions a)
-                       ++ (if in_dec Nat.eq_dec a (pc_held st) then [advance x] else [])
+                       ++ (if nat_mem a (pc_held st) then [advance x] else [])
       | Some (T _) => []
       end.
     Definition step_base (x : item) (st : pc_state) : pc_state :=
@@ -263,7 +300,7 @@ Section Proofs.
         + apply in_map_iff in Hy. destruct Hy as (r & <- & Hr).
           destruct (pred_sound _ _ Hr) as (Hg & Hreach).
           eapply chart_pred_lc; eauto.
-        + destruct (in_dec Nat.eq_dec a (pc_held st)) as [Hin|]; [|destruct Hy].
+        + destruct (nat_memP a (pc_held st)) as [Hin|]; [|destruct Hy].
           destruct Hy as [<- |[]]. destruct (S4 a Hin) as (z & Hz & Hez & Hoz & Hlz).
           eapply chart_comp'; eauto.
       - apply in_map_iff in Hy. destruct Hy as (o & <- & Ho).
@@ -374,7 +411,7 @@ Section Proofs.
           apply in_or_app. right.
           pose proof (inv_held _ _ I z Hz He Ho) as Hh. cbn [pc_held] in Hh.
           unfold st; cbn [pc_held].
-          destruct (in_dec Nat.eq_dec (lhs (irule z)) held); [left; auto|contradiction].
+          destruct (nat_memP (lhs (irule z)) held); [left; auto|contradiction].
         + apply Hmono. eapply (inv_comp_here _ _ I z y); eauto.
     Qed.
 
@@ -933,18 +970,42 @@ Section Basic.
   Variable start : nat.
   Variable toks : list nat.
 
-  Let ps := fun a r => proj1 (predictions_spec G a r).
-  Let pd := predictions_direct G.
+  (* the prediction table is a cache of Analysis.predictions *)
+  Lemma pred_table_ok : forall p, In p (pred_table G) -> snd p = Analysis.predictions G (fst p).
+  Proof.
+    unfold pred_table.
+    assert (H : forall l tbl, (forall p, In p tbl -> snd p = Analysis.predictions G (fst p)) ->
+              forall p, In p (fold_left (fun tbl r => if existsb (fun p => Nat.eqb (fst p) (lhs r)) tbl then tbl
+                                          else tbl ++ [(lhs r, Analysis.predictions G (lhs r))]) l tbl) ->
+                        snd p = Analysis.predictions G (fst p)).
+    { induction l as [|r l IH]; intros tbl Ht p Hp; simpl in Hp; auto.
+      apply (IH _) in Hp; auto. intros q Hq.
+      destruct (existsb (fun p0 => Nat.eqb (fst p0) (lhs r)) tbl); auto.
+      apply in_app_or in Hq. destruct Hq as [?|[<- |[]]]; auto. }
+    apply H. intros p [].
+  Qed.
+
+  Lemma pred_lookup_eq a : pred_lookup G (pred_table G) a = Analysis.predictions G a.
+  Proof.
+    unfold pred_lookup. destruct (find (fun p => Nat.eqb (fst p) a) (pred_table G)) as [p|] eqn:E; auto.
+    apply find_some in E. destruct E as (Hin & He). apply Nat.eqb_eq in He. subst a.
+    apply pred_table_ok; auto.
+  Qed.
+
+  Let ps : forall a r, In r (pred_lookup G (pred_table G) a) -> In r G /\ lc_reach G a (lhs r).
+  Proof. intros a r. rewrite pred_lookup_eq. apply predictions_spec. Qed.
+  Let pd : forall a r, In r G -> lhs r = a -> In r (pred_lookup G (pred_table G) a).
+  Proof. intros a r. rewrite pred_lookup_eq. apply predictions_direct. Qed.
 
   Theorem earley_alg_sound k x :
     In x (colf (r_cols (earley_parse G start toks)) k) \/ In x (colf (r_scans (earley_parse G start toks)) k) ->
     chart G nat Nat.eqb toks start k x.
-  Proof. apply (alg_sound G (Analysis.predictions G) nat Nat.eqb start toks ps pd). Qed.
+  Proof. apply (alg_sound G (pred_lookup G (pred_table G)) nat Nat.eqb start toks ps pd). Qed.
 
   Theorem earley_alg_complete k x :
     chart G nat Nat.eqb toks start k x -> k < length (r_cols (earley_parse G start toks)) ->
     In x (colf (r_cols (earley_parse G start toks)) k) \/ In x (colf (r_scans (earley_parse G start toks)) k).
-  Proof. apply (alg_complete G (Analysis.predictions G) nat Nat.eqb start toks ps pd). Qed.
+  Proof. apply (alg_complete G (pred_lookup G (pred_table G)) nat Nat.eqb start toks ps pd). Qed.
 
   Theorem earley_trace_is_chart k x :
     k < length (r_cols (earley_parse G start toks)) ->
@@ -953,13 +1014,13 @@ Section Basic.
   Proof. intros Hk. split; [apply earley_alg_sound|intros H; apply earley_alg_complete; auto]. Qed.
 
   Theorem earley_fuel_suffices i : r_out (earley_parse G start toks) <> OutOfFuel i.
-  Proof. apply (fuel_suffices G (Analysis.predictions G) nat Nat.eqb start toks ps pd). Qed.
+  Proof. apply (fuel_suffices G (pred_lookup G (pred_table G)) nat Nat.eqb start toks ps pd). Qed.
 
   Theorem earley_accepts_iff_sentence :
     earley_accepts G start toks = true <-> derives G nat Nat.eqb [NT start] toks.
   Proof.
     unfold earley_accepts.
-    rewrite (accepts_iff_spec G (Analysis.predictions G) nat Nat.eqb start toks ps pd).
+    rewrite (accepts_iff_spec G (pred_lookup G (pred_table G)) nat Nat.eqb start toks ps pd).
     apply accepts_iff_sentence.
   Qed.
 End Basic.
